@@ -164,16 +164,33 @@ open VM
 theorem C01_core {V : Type} [PyVal V] (c : ECfg V) (a : Attrs) (hwf : WF c) {tr vs} (hv : VRun c a tr vs)
     (hd : vs.st.pc = .done) : ∀ n, vs.ρ n = den c n := VM.C01_core c a hwf hv hd
 
-/-- C01 (partial: flat fragment — positional / keyword / constant arguments, key paths, flags of every
-    form; nested calls and `unpack_to` are in the executable model `VM/Prog.lean` and tied by
-    differential runs only): if plain sequential evaluation of the body succeeds, every returning
-    execution of the traced DAG gives every variable exactly the plain value. -/
+/-- C01, flat fragment (positional / keyword / constant arguments, key paths, flags of every form): if
+    plain sequential evaluation of the body succeeds, every returning execution of the traced DAG
+    gives every variable exactly the plain value.  Nested calls, `unpack_to`, defaults and return
+    components are covered by `C20_nested_inlining_partial` below (the only exclusion there: an
+    activation flag on a nested call). -/
 theorem C01_flat_partial {V : Type} [PyVal V] (interp : Interp V) (params : List V) (body : List (Call V))
     (valsF : List V) (hev : evalBody interp body params = .ok valsF) (a : Attrs) {tr : List Label} {vs : VSt V}
     (hrun : VRun ((traceBody (initState params) body).cfg interp) a tr vs) (hdone : vs.st.pc = .done) :
     ∀ (i : Nat) (r : Ref), (traceBody (initState params) body).env[i]? = some r →
       ∃ v, valsF[i]? = some v ∧ resolve vs.ρ r = .ok v :=
   VM.C01_flat interp params body valsF hev a hrun hdone
+
+/-- C20 (and C01 beyond the flat fragment): calling a DAG inside a DAG is inlining.  For a module in
+    which no *nested call* carries an activation flag: if plain evaluation (ordinary function-call
+    semantics, arguments overriding defaults, `unpack_to`, flags on plain calls, any nesting depth)
+    gives the return components `outs`, every returning execution of the traced DAG resolves its
+    k-th return reference to the k-th component.  PARTIAL only in this respect: a flag on a nested
+    call is excluded — that is where the code departs from inlining (the two known findings). -/
+theorem C20_nested_inlining_partial {V : Type} [PyVal V] (interp : Interp V) (defs : List (Def V))
+    (hnf : NoDagFlags defs) (i : Nat) (args outs : List V)
+    (hev : evalTopComps (withIdent interp) defs i args = .ok outs)
+    (st : BState V) (refs : List Ref) (htr : traceTopComps defs i args = .ok (st, refs))
+    (a : Attrs) {tr : List Label} {vs : VSt V}
+    (hrun : VRun (st.cfg (withIdent interp)) a tr vs) (hdone : vs.st.pc = .done) :
+    refs.length = outs.length ∧
+    ∀ (k : Nat) (r : Ref), refs[k]? = some r → ∃ v, outs[k]? = some v ∧ resolve vs.ρ r = .ok v :=
+  VM.C20_nested_inlining interp defs hnf i args outs hev st refs htr a hrun hdone
 
 /-- C11: over any history of successful operations on one instance no setup node is entered twice. -/
 theorem C11_setup_at_most_once {V : Type} [PyVal V] (ops : List (Op V)) (i : Inst V) (hok : InstOK i)
